@@ -88,6 +88,10 @@ def run(chk):
     # 4. random lists of 6..40 boxes (TLC -simulate; num is per worker)
     sim = {"Mode": "sim", "Alpha": "full", "MinLen": 0, "MaxLen": 0, "Grid": "full", "Ties": False}
     gen_and_replay(chk, "sim-40", sim, simulate={"num": 25 if quick else 500, "depth": 260}, timeout=600)
+    # 4b. box OBJECTS with a history (vertices generated, then turned / moved / resized / cloned) handed to nms(): the result
+    #     is a function of the current geometry
+    from checks import geomcommon
+    geomcommon.box_objects(chk, "c14", 3 if quick else 4)
     # 5. the comparison is live: the first generated file replayed with the nms threshold handed to the
     #    implementation scaled by 1.5 must produce mismatches
     name = "gen-small-0to3" if quick else "gen-full-0to3"
